@@ -174,3 +174,66 @@ for _shape, (_spec, _foci) in SHAPES.items():
                         lambda *a: True, ensures(_shape))],
             call=extract_call(False, _shape, _focus, _closure), native_call=extract_call(True, _shape, _focus, _closure), cross_key=_key,
             bounded_domain_cap=60))
+
+
+# ---- the dependency list of a formula (XLFormula.terms) names every reference on ITS sheet -----------------------------------------
+# `extract` follows `terms`: a reference missing from it is a cell missing from the extracted model.  The scanner is a collaborator
+# here (its own contracts: C02) handing out tokens whose sheet names are SYMBOLIC texts.
+def _terms_call(native):
+    def call(it, fn, home, s1, s2):
+        from xlcalculator import xltypes, tokenizer
+        import z3                                                                                  # noqa: F401
+
+        def tok(v, ttype='operand', sub='range'):
+            return tokenizer.f_token(v, ttype, sub)
+        items = [tok('SUM', 'function', 'start'), tok('A1'), tok(',', 'argument', ''), tok(S.concat(s1, '!A1')), tok('+', 'operator-infix', ''),
+                 tok(S.concat(s2, '!$A$1')), tok(5.0, 'operand', 'number'), tok('A1'), tok('B$2:C3'), tok('', 'function', 'stop')]
+
+        class Tokens:
+            pass
+        res = Tokens()
+        res.items = items
+        if native:
+            real = tokenizer.ExcelParser.getTokens
+            tokenizer.ExcelParser.getTokens = lambda self, formula: res
+            try:
+                f = xltypes.XLFormula('=SUM(A1,x!A1+y!$A$1 5 A1 B$2:C3)', home)
+            finally:
+                tokenizer.ExcelParser.getTokens = real
+        else:
+            it.call_contracts[tokenizer.ExcelParser.getTokens] = ModelFn(lambda it_, self_, formula: res, 'ExcelParser.getTokens')
+            f = it.instantiate(xltypes.XLFormula, ['=SUM(A1,x!A1+y!$A$1 5 A1 B$2:C3)', home], {})
+        return list(f.terms)
+    if native:
+        return lambda fn, home, s1, s2: call(None, fn, home, s1, s2)
+    return call
+
+
+def _terms_ens(home, s1, s2, out):
+    if out.kind != 'ret':
+        return False
+    terms = out.value
+    expected = [S.concat(home, '!A1'), S.concat(s1, '!A1'), S.concat(s2, '!A1'), S.concat(home, '!B2:C3')]
+    conj = []
+    for e in expected:                                  # every reference is named, on its own sheet
+        conj.append(Or(*[spec.eq(t, e) for t in terms]))
+    for t in terms:                                     # and nothing else is
+        conj.append(Or(*[spec.eq(t, e) for e in expected]))
+    return And(*conj)
+
+
+def _plain_sheet(s):
+    import z3
+    t = S.lift(s).t
+    return Sym(z3.And(z3.Length(t) > 0, z3.Not(z3.Contains(t, z3.StringVal('!'))), z3.Not(z3.Contains(t, z3.StringVal('$')))), 'bool') if is_sym(s) \
+        else bool(s) and '!' not in s and '$' not in s
+
+
+SHEETNAME = lambda: Prim('str', domain=['Sheet1', 'Data', 'My Sheet'])
+UNITS.append(Unit(
+    id='C13/xltypes.XLFormula.__post_init__/terms_name_every_reference', target='xlcalculator.xltypes:XLFormula.__post_init__',
+    inputs=[('home', SHEETNAME()), ('s1', SHEETNAME()), ('s2', SHEETNAME())],
+    requires=lambda home, s1, s2: And(_plain_sheet(home), _plain_sheet(s1), _plain_sheet(s2)),
+    cases=[Case("the dependency list of a formula names every cell reference and range of the formula exactly on the sheet it is written for (the formula's own "
+                "sheet unless qualified), without $ markers - for ALL sheet names, equal or different - and nothing else", lambda *a: True, _terms_ens)],
+    call=_terms_call(False), native_call=_terms_call(True), timeout_ms=30000))
